@@ -46,14 +46,16 @@ pub fn run(rec: &mut Recorder, w: &mut World, tier: &str, seed: u64) {
         rec.begin();
         let kind = if hi < n_ex { "memory" } else { *rng.pick(&["memory", "null", "file"]) };
         new_enforcer(rec, w, &m, kind, &[], "", true);
-        let mut refs = RefStore::of_model(&m);
         let mut replica = RefStore::of_model(&m);
         let mut enabled = true;      // notifications on (the constructor enables them)
         let mut in_sync = true;      // the replica saw every change so far
         let mut descr = vec![];
+        // "changed" is what the store shows (C04 decides whether it should have changed): a call that fails
+        // after changing the store, e.g. a link update on a link that was never built, still has to be notified
+        let mut prev_pol = rec.exec(w, "e.pol");
         for st in hist {
             let (line, want_changed, kindname): (String, Option<bool>, &str) = match st {
-                St::M(op) => { let out = rec.exec(w, &op.line()); let c = refs.apply(op); let _ = out; (op.line(), Some(c), op.kind()) }
+                St::M(op) => { let out = rec.exec(w, &op.line()); (op.line(), Some(out.starts_with("true")), op.kind()) }
                 St::Notify(v) => { rec.exec(w, &format!("e.auto\tnotify\t{}", v)); enabled = *v; (format!("notify {}", v), None, "toggle") }
                 St::Save => { rec.exec(w, "e.save"); ("e.save".into(), None, "save") }
                 St::Flag(which, v) => { rec.exec(w, &format!("e.auto\t{}\t{}", which, v)); (format!("enable_{} {}", which, v), None, "flag") }
@@ -61,6 +63,10 @@ pub fn run(rec: &mut Recorder, w: &mut World, tier: &str, seed: u64) {
             };
             descr.push(line.replace('\t', " "));
             rec.count(&format!("op:{}", kindname));
+            let cur = rec.exec(w, "e.pol");
+            // one notification iff the call reported a change (an empty batch reports one, vacuously) or the store shows one
+            let want_changed = want_changed.map(|reported| reported || cur != prev_pol);
+            prev_pol = cur.clone();
             let evs_s = rec.exec(w, "e.events");
             let evs: Vec<&str> = if evs_s == "-" { vec![] } else { evs_s.split(' ').collect() };
             // (1) exactly one notification per change, none otherwise; clear/save exactly one
@@ -79,8 +85,6 @@ pub fn run(rec: &mut Recorder, w: &mut World, tier: &str, seed: u64) {
             }
             if !enabled && (want_changed == Some(true) || matches!(st, St::M(MOp::Clear))) { in_sync = false; }
             if matches!(st, St::M(MOp::DelUser(_)) | St::M(MOp::DelRole(_))) && !enabled { in_sync = false; }
-            let cur = rec.exec(w, "e.pol");
-            if cur != refs.render() && kind != "string" { /* C04's business */ }
             if in_sync && enabled && replica.render() != cur {
                 rec.fail("replica-diverged", format!("after {}: replica {} but primary {} (events {})", descr.join(" ; "), replica.render(), cur, evs_s));
                 break;
